@@ -16,7 +16,7 @@ SPEC = {
     "assumptions": ["reference AVM semantics of mulw/addw/divmodw/assert (vlib/prims.py, calibrated by setup gates)",
                     "Python arbitrary-precision integers"],
     "min_evaluations": {"quick": 5000, "thorough": 50000},
-    "must_reach": ["expected_value", "expected_fail_overflow", "expected_fail_quotient", "reuse_compiled_twice", "reuse_used_twice", "reuse_shared_lists"],
+    "must_reach": ["expected_value", "expected_fail_overflow", "expected_fail_quotient", "reuse_compiled_twice", "reuse_used_twice", "reuse_shared_lists", "nested_numerator", "nested_denominator", "nested_expected_value", "nested_expected_fail"],
 }
 
 B = [0, 1, 2, 3, 2**32 - 1, 2**32, 2**32 + 1, 2**63, 2**64 - 1, 2**64 - 2, 2**16, 10**9, 12345678901234567, 2**63 - 1,
@@ -164,12 +164,65 @@ def check_reuse(pt, acc, rng, ns, ds, version):
         acc.nontrivial.add(h(case))
 
 
+def check_nested(pt, acc, rng, version):
+    """A WideRatio as a factor of another WideRatio (numerator or denominator position): the inner ratio is a value of its own -
+    floored, and failing when its quotient needs more than 64 bits - before the outer ratio uses it."""
+    from ..common import h
+    small = [1, 2, 3, 5, 7, 10, 2**16, 2**32 - 1, 2**32, 2**63, 2**64 - 1]
+    ins = [rng.choice(small) for _ in range(rng.randrange(1, 4))]
+    ids = [rng.choice(small[:8]) for _ in range(rng.randrange(1, 3))]
+    ons = [rng.choice(small) for _ in range(rng.randrange(0, 3))]
+    ods = [rng.choice(small[:9]) for _ in range(rng.randrange(1, 3))]
+    where = rng.choice(["numerator", "numerator", "denominator"])
+    if len(ins) == 1 and len(ids) == 1:
+        ins.append(rng.choice(small))  # (a 1x1 ratio is refused by the constructor: "use basic division")
+    if where == "denominator" and not ons:
+        ons.append(rng.choice(small))
+    if len(ons) + (where == "numerator") == 1 and len(ods) + (where == "denominator") == 1:
+        ons.append(rng.choice(small))
+    pos = rng.randrange(0, (len(ons) if where == "numerator" else len(ods)) + 1)
+    inner, why_in = expected(ins, ids)
+    if inner is None:
+        exp, why = None, "inner_" + why_in
+    else:
+        N2, D2 = list(ons), list(ods)
+        (N2 if where == "numerator" else D2).insert(pos, inner)
+        exp, why = expected(N2, D2)
+    case = {"variant": "nested", "inner": [[str(x) for x in ins], [str(x) for x in ids]], "outer": [[str(x) for x in ons], [str(x) for x in ods]], "where": where, "pos": pos, "version": version}
+    acc.evaluations += 1
+    args = [x.to_bytes(8, "big") for x in ins + ids + ons + ods]
+    A = [pt.Btoi(pt.Txn.application_args[i]) for i in range(len(args))]
+    a_in, a_id = A[:len(ins)], A[len(ins):len(ins) + len(ids)]
+    a_on, a_od = A[len(ins) + len(ids):len(ins) + len(ids) + len(ons)], A[len(ins) + len(ids) + len(ons):]
+    try:
+        innerx = pt.WideRatio(a_in, a_id)
+        N, D = list(a_on), list(a_od)
+        (N if where == "numerator" else D).insert(pos, innerx)
+        teal = pt.compileTeal(pt.Seq(pt.Log(pt.Itob(pt.WideRatio(N, D))), pt.Int(1)), pt.Mode.Application, version=version)
+    except Exception as e:
+        acc.violation("nested_compile_error", case, "%s: %s" % (type(e).__name__, str(e)[:200]))
+        return
+    r = avm.run(avm.parse_any(teal), avm.Ctx(group=[{"ApplicationArgs": args}]))
+    got = int.from_bytes(r.logs[0], "big") if r.status == "approve" and r.logs else None
+    acc.counters["nested_" + where] += 1
+    acc.counters["nested_expected_" + ("value" if exp is not None else "fail")] += 1
+    if got != exp or (exp is None and r.status != "fail"):
+        acc.violation("wrong_result" if exp is not None else "no_failure", case, "nested ratio: expected %s (%s) got %s status=%s err=%s" % (exp, why, got, r.status, r.error))
+    elif exp is not None:
+        acc.nontrivial.add(h(case))
+
+
 def run_shard(shard):
     import pyteal as pt
     from ..common import Acc, rng_for, reset_globals
     acc = Acc()
     if "replay" in shard:
         c = shard["replay"]
+        if c["variant"] == "nested":
+            import random
+            for k in range(3000):
+                check_nested(pt, acc, random.Random(k), c["version"])
+            return acc.result()
         if c["variant"].startswith("reuse"):
             check_reuse(pt, acc, rng_for(0, "replay"), [int(x) for x in c["ns"]], [int(x) for x in c["ds"]], c["version"])
             return acc.result()
@@ -187,6 +240,9 @@ def run_shard(shard):
         ns, ds = gen_vec(rng, nn, nd)
         if it % 10 == 0:
             check_reuse(pt, acc, rng, ns, ds, version)
+            continue
+        if it % 10 == 5:
+            check_nested(pt, acc, rng, version)
             continue
         check_one(pt, progs, acc, ns, ds, version, variant)
     acc.counters["programs_compiled"] = len(progs)
